@@ -4,9 +4,9 @@ CONSTANTS
   WRun = {}
   WTerm = {}
   QCap = 4
-  MaxStart = 2
+  MaxStart = 1
   ParentCancels = TRUE
-  Presents = {{}, {"run"}, {"start","stop"}, {"start","run"}, {"stop"}}
+  Presents = {{}, {"run"}, {"start","stop"}}
   RunModes = {"any"}
   GuardNilCancel = FALSE
 INIT GInit
